@@ -75,11 +75,11 @@ func tmVerify(kind int) {
 	expected := value
 	switch kind {
 	case 1:
-		path = host.PacketCommitmentPath(src, dst, seq)
+		path = refCommitmentPath(src, dst, seq)
 	case 2:
-		path = host.PacketAcknowledgementPath(src, dst, seq)
+		path = refAckPath(src, dst, seq)
 	default:
-		path = host.CleanPacketCommitmentPath(src, dst)
+		path = refCleanPath(src, dst)
 		expected = be8(seq)
 	}
 
